@@ -8,6 +8,7 @@ pub mod dekey_ {
 use super::*;
 use vstd::prelude::*;
 use vstd::string::*;
+use vstd::utf8::*;
 use core::result::Result;
 
 //@extract utils::CowRef | src/utils.rs :: enum CowRef | serves=C14 features=serialize
@@ -145,6 +146,94 @@ impl<'i, 'd> QNameDeserializer<'i, 'd> {
         };
 
         Ok(Self { name: local })
+    }
+//@end
+}
+// ---- attribute names as map keys: `@` + the decoded local name (or the whole name for a namespace binding `xmlns:p`) ----
+#[verifier::external_type_specification]
+#[verifier::external_body]
+pub struct ExUtf8ErrorK(core::str::Utf8Error);
+/// std::str::from_utf8 (documented contract): the same bytes as a string, or an error
+pub assume_specification<'a>[ core::str::from_utf8 ](v: &'a [u8]) -> (r: Result<&'a str, core::str::Utf8Error>)
+    ensures r matches Ok(s) ==> s.spec_bytes() == v@;
+/// src/encoding.rs: `impl From<Utf8Error> for EncodingError` (EncodingError is transcribed as an opaque value)
+impl vstd::std_specs::convert::FromSpecImpl<core::str::Utf8Error> for EncodingError {
+    open spec fn obeys_from_spec() -> bool { false }
+    open spec fn from_spec(e: core::str::Utf8Error) -> Self { arbitrary() }
+}
+impl From<core::str::Utf8Error> for EncodingError {
+    #[verifier::external_body]
+    fn from(e: core::str::Utf8Error) -> Self { unimplemented!() }
+}
+impl<'a> QName<'a> {
+    /// assumed here (proved in unit ns, C05): a name is a namespace declaration iff it is `xmlns` or starts with `xmlns:`
+    #[verifier::external_body]
+    pub fn as_namespace_binding(&self) -> (r: Option<u8>)
+        ensures (r is Some) == is_ns_binding(self.0@)
+    { unimplemented!() }
+//@extract name::QName::into_inner | src/name.rs :: impl<'a> QName<'a> :: fn into_inner | serves=C14
+ pub fn into_inner(self) -> (r: &'a [u8])
+        ensures r@ == self.0@
+ {
+        self.0
+    }
+//@end
+}
+pub open spec fn is_ns_binding(n: Seq<u8>) -> bool {
+    n.len() >= 5 && n.subrange(0, 5) == seq![0x78u8, 0x6d, 0x6c, 0x6e, 0x73] && (n.len() == 5 || n[5] == 0x3a)
+}
+impl Decoder {
+//@extract encoding::Decoder::decode_into | src/encoding.rs :: impl Decoder :: fn decode_into | serves=C14 features=serialize n11=@from_utf8
+ pub fn decode_into(&self, bytes: &[u8], buf: &mut String) -> (r: Result<(), EncodingError>)
+        // (this build: UTF-8 only) the bytes are appended as they are, or nothing is
+        ensures match r {
+            Ok(_) => encode_utf8(final(buf)@) == encode_utf8(old(buf)@) + bytes@,
+            Err(_) => final(buf)@ == old(buf)@,
+        }
+ {
+        proof { assert forall|t: Seq<char>| #[trigger] encode_utf8(old(buf)@ + t) == encode_utf8(old(buf)@) + encode_utf8(t) by { encode_utf8_concat(old(buf)@, t); } }
+        buf.push_str(match std::str::from_utf8(bytes) { Ok(v__) => v__, Err(e__) => return Err(From::from(e__)) });
+
+        Ok(())
+    }
+//@end
+}
+impl<'i, 'd> QNameDeserializer<'i, 'd> {
+//@extract de::key::QNameDeserializer::from_attr | src/de/key.rs :: impl<'i, 'd> QNameDeserializer<'i, 'd> :: fn from_attr | serves=C14 features=serialize
+//@rewrite CowRef::Slice(key_buf) ==> CowRef::Slice(key_buf.as_str())
+ pub fn from_attr(
+        name: QName<'d>,
+        decoder: Decoder,
+        key_buf: &'d mut String,
+    ) -> (r: Result<Self, DeError>)
+        // C14: the key of an attribute is `@` + its local name -- the whole name for a namespace declaration (`@xmlns:p`) --, a
+        // function of the name's BYTES (never an owned name: it is written into the deserializer's key buffer)
+        ensures r matches Ok(q) ==> q.name is Slice && encode_utf8(cowref_str(q.name)) == seq![0x40u8]
+            + (if is_ns_binding(name.0@) { name.0@ } else { spec_local_name(name.0@) }),
+    {
+        key_buf.clear();
+        key_buf.push('@');
+        proof {
+            assert(key_buf@ =~= seq!['@']);
+            is_ascii_chars_encode_utf8(seq!['@']);
+            assert(encode_utf8(key_buf@) =~= seq![0x40u8]);
+        }
+
+        // https://github.com/tafia/quick-xml/issues/537
+        // Namespace bindings (xmlns:xxx) map to `@xmlns:xxx` instead of `@xxx`
+        if name.as_namespace_binding().is_some() {
+            decoder.decode_into(name.into_inner(), key_buf)?;
+        } else {
+            let local = name.local_name();
+            decoder.decode_into(local.into_inner(), key_buf)?;
+        };
+        proof {
+            assert(encode_utf8(key_buf@) == seq![0x40u8] + (if is_ns_binding(name.0@) { name.0@ } else { spec_local_name(name.0@) }));
+        }
+
+        Ok(Self {
+            name: CowRef::Slice(key_buf.as_str()),
+        })
     }
 //@end
 }
